@@ -281,6 +281,67 @@ def z7(i):
 U.ZONES["Z7"] = (z7, lambda: Z7_SIZE)
 
 
+# ------------------------------------------------------------------ Z8: multi-line inline constructs
+# links / images / code spans / raw HTML whose parts are spread over lines, followed by further
+# positioned inline elements; in paragraphs, block quotes, list items and setext headings
+def _z8_inline(r):
+    ws = lambda: r.choice(["", "", " ", "  ", "\n", " \n", "\n ", "\n  ", " \n "])  # noqa: E731
+    w = lambda: r.choice(["a", "b c", "x", "lorem"])  # noqa: E731
+    k = r.below(9)
+    if k <= 2:
+        text = r.choice([w(), w() + "\n" + w(), "*" + w() + "*", "`" + w() + "`"])
+        dest = r.choice(["/u", "</u>", "/u/v", "<u v>"])
+        title = r.choice(["", "", '"t"', "'t'", "(t)", '"t\nu"', "'t  u'"])
+        link = "[" + text + "](" + ws() + dest + (ws() or " ") * bool(title) + title + ws() + ")"
+        return ("!" if k == 2 else "") + link
+    if k == 3:
+        return "[" + w() + r.choice(["", "\n"]) + w() + "][r]"
+    if k == 4:
+        bt = "`" * r.choice([1, 2])
+        return bt + w() + r.choice(["\n", " \n", "\n  ", " "]) + w() + bt
+    if k == 5:
+        return "<b" + r.choice(["\n", " ", "\n ", "  "]) + "c='d'" + r.choice(["", "\n", " "]) + ">"
+    if k == 6:
+        return r.choice(["*", "**", "_"]) + w() + r.choice(["\n", " "]) + w() + r.choice(["*", "**", "_"])
+    if k == 7:
+        return "<!-- " + w() + "\n" + w() + " -->"
+    return w() + r.choice(["  \n", "\\\n", "\n"]) + w()
+
+
+Z8_SIZE = 40000
+
+
+def z8(i):
+    r = R(0x8000000 + i)
+    parts = [_z8_inline(r) for _ in range(r.randint(2, 4))]
+    tail = r.choice(["*x*", "`c`", "<i>", "[l](/m)", "<http://x.y>", "![i](/j)", "**s**", "end"])
+    body = " ".join(parts) + " " + tail
+    if r.chance(0.3):
+        body = r.choice(["a", "lead in", "*e*"]) + " " + body
+    lines = body.split("\n")
+    ctx = r.below(8)
+    if ctx == 0:
+        pre = r.choice(["> ", ">", ">  "])
+        lines = [pre + x if not r.chance(0.15) or j == 0 else x for j, x in enumerate(lines)]
+    elif ctx == 1:
+        lines = ["- " + lines[0]] + [("  " if not r.chance(0.15) else "") + x for x in lines[1:]]
+    elif ctx == 2:
+        lines = ["1. " + lines[0]] + ["   " + x for x in lines[1:]]
+    elif ctx == 3:
+        lines = lines + [r.choice(["===", "---"])]
+    elif ctx == 4:
+        lines = ["> - " + lines[0]] + [">   " + x for x in lines[1:]]
+    s = "\n".join(lines)
+    if r.chance(0.8):
+        s += "\n"
+    if "[r]" in s:
+        s += "\n[r]: /ref\n"
+    return s
+
+
+U.ZONES["Z8"] = (z8, lambda: Z8_SIZE)
+
+
 def content_hash():
     h = hashlib.sha256()
     for p in (os.path.abspath(__file__), os.path.join(os.path.dirname(os.path.abspath(__file__)), "prng.py")):
